@@ -250,6 +250,34 @@ pub fn redirect_stdio_to_null() {
     }
 }
 
+/// address-space limit for worker processes: a runaway allocation aborts the worker (attributed
+/// to the case through the progress file) instead of exhausting the machine
+pub fn limit_memory() {
+    unsafe {
+        let lim = libc::rlimit { rlim_cur: 6 << 30, rlim_max: 6 << 30 };
+        libc::setrlimit(libc::RLIMIT_AS, &lim);
+    }
+}
+
+/// watchdog thread: a case that does not finish within the timeout is a hang
+pub fn start_watchdog(progress_path: String, timeout: u64) {
+    std::thread::spawn(move || {
+        let mut last = (u64::MAX, 0u64);
+        let mut since = Instant::now();
+        loop {
+            std::thread::sleep(std::time::Duration::from_millis(200));
+            let cur = (PROGRESS.load(Ordering::SeqCst), PROGRESS_TICK.load(Ordering::SeqCst));
+            if cur != last {
+                last = cur;
+                since = Instant::now();
+            } else if cur.0 != u64::MAX && since.elapsed().as_secs() >= timeout {
+                let _ = std::fs::write(&progress_path, format!("hang {}", cur.0));
+                unsafe { libc::_exit(97) };
+            }
+        }
+    });
+}
+
 fn sample_wanted(idx: usize, n: usize, seed: u64) -> bool {
     if n == 0 {
         return false;
@@ -263,25 +291,8 @@ pub fn worker(check: &dyn Check, tier: Tier, shard: usize, nshards: usize, skip:
     let n = check.n_cases(tier);
     let progress_path = format!("{}.progress", out);
     let timeout = check.case_timeout_s();
-    // watchdog thread: a case that does not finish within the timeout is a hang
-    {
-        let pp = progress_path.clone();
-        std::thread::spawn(move || {
-            let mut last = (u64::MAX, 0u64);
-            let mut since = Instant::now();
-            loop {
-                std::thread::sleep(std::time::Duration::from_millis(200));
-                let cur = (PROGRESS.load(Ordering::SeqCst), PROGRESS_TICK.load(Ordering::SeqCst));
-                if cur != last {
-                    last = cur;
-                    since = Instant::now();
-                } else if cur.0 != u64::MAX && since.elapsed().as_secs() >= timeout {
-                    let _ = std::fs::write(&pp, format!("hang {}", cur.0));
-                    unsafe { libc::_exit(97) };
-                }
-            }
-        });
-    }
+    limit_memory();
+    start_watchdog(progress_path.clone(), timeout);
     redirect_stdio_to_null();
     let start = Instant::now();
     let mut m = Merged::default();
@@ -589,6 +600,9 @@ pub fn orchestrate(check: &dyn Check, tier: Tier, root: &str, jobs: usize, seed:
 pub fn solo(check: &dyn Check, tier: Tier, idx: usize, out: Option<&str>, quiet: bool) -> i32 {
     if quiet {
         redirect_stdio_to_null();
+        limit_memory();
+        PROGRESS.store(idx as u64, Ordering::SeqCst);
+        start_watchdog(format!("{}.progress", out.unwrap_or("/dev/null")), check.case_timeout_s());
     }
     // identity first (cheap generators), so that a crash can still be named
     if let Some(out) = out {
